@@ -524,7 +524,7 @@ def objStep (group : Bool) (ek ev : Val → Val → Out) (st : ForSt) (kv : Val 
           let st : ForSt := { st with diags := st.diags ++ (ev kv.1 kv.2).2 }
           if group then { st with kvs := groupInsert k v st.kvs }
           else if (lookupKey k st.kvs).isSome then
-            { st with diags := st.diags ++ [⟨"Duplicate object key", [.str kf k]⟩] }
+            { st with diags := st.diags ++ [⟨"Duplicate object key", if st.marks.m then [] else [.str kf k]⟩] }
           else { st with kvs := groupInsert k v st.kvs }
         | _ => { st with known := false }
 
